@@ -140,9 +140,10 @@ def main(argv):
                 "native SSR build, is parsed into the in-process DOM and hydrated by the real HydrateNode code; then 0-4 signal writes; non-trivial = the "
                 "view contains a dynamic construct and at least one write changed the DOM; distinct = distinct (state, view, ops)")
     chk.cov["explanation"] = ("Coq theorems relating the server build (Ssr/View.v) and the client model (Dom/Client.v): same visible tree, same elements in key order, same behaviour under writes; end-to-end differential check: real SSR output -> real hydration code on an in-process DOM -> fresh client render, node identities of the parsed server DOM, and the client model through every write")
-    okp, msgp = vlib.proof_step(chk, "C09+C05+C09h", ["theories/Props/C09.vo", "theories/Props/C05.vo", "theories/Props/C09h.vo", "theories/Dom/ClientShow.vo"],
+    okp, msgp = vlib.proof_step(chk, "C09+C05+C09h+C09i", ["theories/Props/C09.vo", "theories/Props/C05.vo", "theories/Props/C09h.vo", "theories/Props/C09i.vo", "theories/Dom/ClientShow.vo"],
                                 ["C09_visible_tree", "C09_keys", "C09_updates_agree", "C05_fresh_render_every_step", "C05_run_dom_nodup",
-                                 "C09_hydrate_ok", "C09_hydrate_nodes", "C09_hydrate_client", "C09h_class_exact_on_enumeration"])
+                                 "C09_hydrate_ok", "C09_hydrate_nodes", "C09_hydrate_client", "C09h_class_exact_on_enumeration",
+                                 "C09i_agreement", "C09i_agreement_walk", "C09i_hydrated", "C09i_reacts", "C09i_run_from", "C09i_keeps", "C09i_ids", "C09i_run_ids"])
     okb, outb, ssr = vlib.cargo_build("ssr-driver")
     chk.obligation("cargo build ssr-driver against /repo", okb, outb)
     binp = domlib.build(chk)
@@ -273,6 +274,38 @@ def main(argv):
                            str([lines[i][:300] for i in bad[:2]]))
             if bad:
                 mism.append({"what": "a view in the class of the adoption theorems fails in the real code", "scenario": lines[bad[0]]})
+            # the hydrated INSTANCE (Dom/HydrateInst.v, theorems C09i_*): for the views that are hydratable and live, hydratei is run on
+            # the REAL parsed server DOM and the instance is updated through the writes of the scenario: after hydration and after every
+            # write the elements of the instance, in document order, each with the server node it adopted (or 'new'), must be what the
+            # real DOM shows
+            pre_k = (pre_h.replace("Dom.HydrateSpec.", "Dom.HydrateSpec Dom.Client Dom.HydrateInst.") +
+                     "Fixpoint el_ids (d : dnode) : list nat := match d with DEl id _ _ ch => id :: flat_map el_ids ch | _ => [] end.\n"
+                     "Definition keep_case (st : vstate) (v : view) (server : list hnode) (ws : list (sigid * (option string * bool * list Z))) : string :=\n"
+                     "  if negb (hydratable st v && live st v) then \"SKIP\" else\n"
+                     "  match hydratei st v server 2000 4000 with\n"
+                     "  | HOk (_, i, c) => join \"|\" (map (fun d => join \" \" (map (fun n => if Nat.ltb n 2000 then show_nat n else \"n\") (flat_map el_ids d))) (dom_of i :: run_from st v i c ws))\n"
+                     "  | HErr _ => \"ERR\" end.\n")
+            ksel = [(i, r) for i, r in zip(hsel, ren) if i not in failed and not impl[i][0].startswith("PANIC")]
+            kexprs = ["lines %s" % vlib.glist(["(keep_case (%s) (%s) %s %s)" % (viewgen.cq_state(cases[i][0]), viewgen.cq_view(cases[i][1]), hydmodel.cq_tree(hydmodel.parse_tree(r[0])),
+                                                                             vlib.glist([clientmodel.cq_op(o) for o in cases[i][2]])) for i, r in ksel[j:j + 20]])
+                      for j in range(0, len(ksel), 20)]
+            kouts = [l for o in vlib.coq_eval(PID + "k", pre_k, kexprs, per_file=max(1, (len(kexprs) + 31) // 32)) for l in o.split("\n")]
+            kbad, kn = [], 0
+            for (i, (pre2, ids)), ko in zip(ksel, kouts):
+                if ko == "SKIP":
+                    continue
+                kn += 1
+                real_steps = []
+                for l in impl[i]:
+                    parts = dict(p.split(" ", 1) if " " in p else (p, "") for p in l.split(" ; "))
+                    real_steps.append(" ".join(str(ids[n[1]]) if n[1] in ids else "n" for n in c05.parse_nodes(parts["nodes"]) if n[0] == "E"))
+                if "|".join(real_steps) != ko:
+                    kbad.append({"scenario": lines[i][:400], "what": "elements of the hydrated instance (adopted server node or new) differ", "real": "|".join(real_steps)[:300], "model": ko[:300]})
+            chk.cov["hydrated_instance"] = {"compared": kn}
+            chk.traces += kn
+            chk.obligation("correspondence: the hydrated instance (Dom/HydrateInst.v on the REAL server DOM, then Dom/Client.v update) has, after hydration and after every "
+                           "write, the elements the real DOM has, adopted server nodes identified (%d hydratable live views)" % kn, len(kouts) == len(ksel) and kn > 0 and not kbad, str(kbad[:1]))
+            mism += kbad
         except RuntimeError as e:
             chk.obligation("evaluation of `hydratable` on the generated views", False, str(e)[-600:])
             mism.append({"what": "evaluation of hydratable", "detail": str(e)[-300:]})
